@@ -126,6 +126,16 @@ class C18(Check):
             # every name that also occurs inside another row's name or category (where the matching rules decide)
             cases += [dict(kind='name', row=i, with_ref=False) for i in ambiguous_rows()]
         cases += [dict(kind='abbe', row=i) for i in range(n)]
+        # look-ups by the short (category) name, with the row's own reference: every category whose name contains a regex
+        # metacharacter, and in the thorough tier every category once
+        seen = set()
+        for i, r in enumerate(rows()):
+            c = str(r['category_name'])
+            if c.lower() in seen:
+                continue
+            if tier == 'thorough' or any(ch in c for ch in '()[]{}+*?.^$|\\'):
+                seen.add(c.lower())
+                cases.append(dict(kind='category', row=i))
         return cases
 
     def strategy(self, tier):
@@ -157,6 +167,8 @@ class C18(Check):
             return self.check_name(case, out)
         if kind == 'abbe':
             return self.check_abbe(case, out)
+        if kind == 'category':
+            return self.check_category(case, out)
         if kind == 'model':
             return self.check_model(case, out)
 
@@ -277,6 +289,26 @@ class C18(Check):
             if e['n_tab'] is None or not in_hull(w, bad_hull(e['n_tab'][0])):
                 out.close('lookup_n_equals_file', float(m.n(w)), float(RM.ref_n(e, w)[0]), atol=1e-12, rtol=1e-11,
                           file=m.material_data['filename'])
+
+    def check_category(self, case, out):
+        from optiland.materials.material import Material
+        r = rows()[case['row']]
+        cat = str(r['category_name'])
+        if any(ch in cat for ch in '()[]{}+*?.^$|\\'):
+            out.cls('category_has_regex_metachar')
+        out.nt()
+        try:
+            m = quiet(Material, cat, r['reference'])
+        except ValueError as exc:
+            if 'Multiple refractive index' in str(exc):
+                out.cls('lookup_of_ambiguous_file')
+                return
+            out.fail('category_name_found', query=cat, reference=r['reference'], error=str(exc)[:200])
+            return
+        got_cat = str(m.material_data.get('category_name', ''))
+        got_name = str(m.material_data.get('name', ''))
+        out.expect('category_lookup_returns_that_category', got_cat.lower() == cat.lower() or got_name.lower() == cat.lower(),
+                   query=cat, reference=r['reference'], returned=got_name, returned_category=got_cat)
 
     def check_abbe(self, case, out):
         from optiland.materials.material_file import MaterialFile
